@@ -37,6 +37,7 @@ def polOf (j : Option Json) : R (Nat → Bool) :=
 
 def reqOf (j : Json) : R Request := do
   pure ⟨← natF j "method", ← boolF j "versionOk", ← boolF j "paramsOk",
+        ← match fieldOpt j "clientRejects" with | some v => bool v | none => pure false,
         ← match fieldOpt j "resultDecodes" with | some v => bool v | none => pure true⟩
 
 def sopOf (s : String) : R SOp :=
@@ -68,7 +69,8 @@ def shapeOf (j : Option Json) : R Gen.C04.Shape :=
            emptyRequestReplies := ← g "emptyRequestReplies" d.emptyRequestReplies,
            initErrorFlushesLogs := ← g "initErrorFlushesLogs" d.initErrorFlushesLogs,
            failFlushesLogs := ← g "failFlushesLogs" d.failFlushesLogs,
-           unaryDrainBeforeDecode := ← g "unaryDrainBeforeDecode" d.unaryDrainBeforeDecode }
+           unaryDrainBeforeDecode := ← g "unaryDrainBeforeDecode" d.unaryDrainBeforeDecode,
+           requestBuiltBeforeStream := ← g "requestBuiltBeforeStream" d.requestBuiltBeforeStream }
 
 def resName : Res → String
   | .none => "none" | .value => "value" | .error => "error" | .data => "data" | .fin => "end" | .raised => "raised"
